@@ -1,6 +1,7 @@
 import VaxisModel.Model.EdGen
 import VaxisModel.Lemmas.EdLangTF
 import VaxisModel.Lemmas.EdLangLoops
+import VaxisModel.Lemmas.TextInputCl
 
 /-!
 C17 — proofs that the bodies of textinput's `SetContent`, `resegment` and `Update`, translated from
@@ -954,5 +955,46 @@ theorem update_body_eq_model (cl : List A → List (List A)) (hnil : cl [] = [])
       · exact update_backspace cl al m c a sup t
       · exact update_ctrl_w cl al m c a sup t
     · exact update_default cl hnil al m s c a sup t hs
+
+/-! ### histories through the translated bodies -/
+
+open VaxisModel.Lemmas.TextInputCl (TIOpC tiStepC tiRunC tiOpSpecC) in
+/-- One API call: `Update` and `SetContent` through the translated bodies, `Draw` through the hand model
+    (its body is not in the statement language). -/
+def tiStepI (al : List A → Bool) (cl : List A → List (List A)) (width : List A → Int) (m : TIC A) : TIOpC A → Option (TIC A)
+  | .ev e => tiRunUpdate genTi cl al m e
+  | .set s => tiRunSetContent genTi cl al m s
+  | .draw p w => tiStepC al cl width m (.draw p w)
+
+open VaxisModel.Lemmas.TextInputCl (TIOpC tiStepC tiRunC tiOpSpecC) in
+def tiRunI (al : List A → Bool) (cl : List A → List (List A)) (width : List A → Int) :
+    TIC A → List (TIOpC A) → Option (TIC A × List (VaxisModel.Spec.Editor.Op (List A)))
+  | m, [] => some (m, [])
+  | m, op :: ops =>
+    match tiStepI al cl width m op with
+    | none => none
+    | some m' =>
+      match tiRunI al cl width m' ops with
+      | none => none
+      | some (mf, sops) => some (mf, tiOpSpecC cl m op :: sops)
+
+open VaxisModel.Lemmas.TextInputCl (TIOpC tiStepC tiRunC tiOpSpecC) in
+theorem tiStepI_eq (al : List A → Bool) (cl : List A → List (List A)) (hnil : cl [] = []) (width : List A → Int) (m : TIC A)
+    (op : TIOpC A) : tiStepI al cl width m op = tiStepC al cl width m op := by
+  cases op with
+  | ev e => simp [tiStepI, tiStepC, update_body_eq_model cl hnil al m e]
+  | set s => simp [tiStepI, tiStepC, setContent_body_eq_model cl al m s]
+  | draw p w => rfl
+
+open VaxisModel.Lemmas.TextInputCl (TIOpC tiStepC tiRunC tiOpSpecC) in
+theorem tiRunI_eq (al : List A → Bool) (cl : List A → List (List A)) (hnil : cl [] = []) (width : List A → Int) (ops : List (TIOpC A))
+    (m : TIC A) : tiRunI al cl width m ops = tiRunC al cl width m ops := by
+  induction ops generalizing m with
+  | nil => rfl
+  | cons op ops ih =>
+    simp only [tiRunI, tiRunC, tiStepI_eq al cl hnil]
+    cases tiStepC al cl width m op with
+    | none => rfl
+    | some m' => simp only [ih]; rfl
 
 end VaxisModel.Lemmas.EdLangTIBody
